@@ -85,6 +85,10 @@ func main() {
 				p.Pos, r.Selected, r.Visible, r.PublishedWhileHeld)
 			continue
 		}
+		if p.Pos == "mid" && r.PublishedWhileHeld && len(r.Selected) == 0 {
+			res.Inc("mid_overtaken_by_publication") // the publication ran before the query took the fence: the legal schedule "before"
+			continue
+		}
 		// agreement with the specification's final state (sequential positions are deterministic)
 		if (len(r.Selected) > 0) != p.Selected || (len(r.Visible) > 0) != p.Visible {
 			res.Inc("differs_from_spec_view")
